@@ -86,6 +86,54 @@ def run(ctx):
            and "int(label) if labels is None" in ast.unparse(fn) and "label = str(self._index)" in ast.unparse(tn),
            "leaf labels map to indices through the same list (or the index itself)", fn.lineno)
 
+    # the parser ignores whitespace of every kind (line breaks and tabs of a wrapped file as well as blanks)
+    import re as _re
+    ws_all = deletes_ws or any(isinstance(n, ast.Call) and call_name(n) in ("re.sub", "re.compile") and n.args and isinstance(n.args[0], ast.Constant)
+                               and isinstance(n.args[0].value, str) and "\\s" in n.args[0].value for n in walk_local(fn))
+    ctx.ob("R1.whitespace-ignored", TREE, "TreeNode.from_newick", "''.join(newick.split())", ws_all,
+           "every whitespace character must be dropped before parsing (str.split() without argument, or \\s): replacing only the blank "
+           "leaves the line breaks and tabs of a wrapped Newick string inside labels and numbers", fn.lineno)
+    # the label list reaches every recursive call
+    from ..lints import parameter_threaded
+    parameter_threaded(ctx, TREE, "R1.labels-forwarded", "labels", 2)
+    # lowest common ancestor: one result, the last node the two root paths have in common (no other way out)
+    lcaf = s.func("TreeNode.lowest_common_ancestor")
+    rets = [r for r in walk_local(lcaf) if isinstance(r, ast.Return)]
+    paths = {st.targets[0].id: st.value for st in stmts(lcaf) if isinstance(st, ast.Assign) and isinstance(st.targets[0], ast.Name)
+             and isinstance(st.value, ast.Call) and call_name(st.value) == "_create_path_to_root"}
+    walk = [lp for lp in walk_local(lcaf) if isinstance(lp, ast.For)]
+    res_ok = False
+    if len(rets) == 1 and isinstance(rets[0].value, ast.Name) and len(walk) == 1 and len(paths) == 2:
+        rv = rets[0].value.id
+        sets_ = [st for st in walk_local(lcaf) if isinstance(st, ast.Assign) and any(isinstance(t, ast.Name) and t.id == rv for t in st.targets)]
+        in_loop = [st for st in sets_ if any(x is st for x in ast.walk(walk[0]))]
+        outside = [st for st in sets_ if st not in in_loop]
+        p1, p2 = sorted(paths)
+        iv = walk[0].target.id if isinstance(walk[0].target, ast.Name) else "?"
+        guarded = [st for st in ast.walk(walk[0]) if isinstance(st, ast.If) and (same_expr(st.test, f"{p1}[{iv}] is {p2}[{iv}]") or same_expr(st.test, f"{p2}[{iv}] is {p1}[{iv}]"))
+                   and any(b in in_loop for b in st.body) and any(isinstance(b, ast.Break) for b in st.orelse)]
+        res_ok = len(in_loop) == 1 and bool(guarded) and all(isinstance(st.value, ast.Constant) and st.value.value is None for st in outside) \
+            and (same_expr(in_loop[0].value, f"{p1}[{iv}]") or same_expr(in_loop[0].value, f"{p2}[{iv}]")) \
+            and sorted(ast.unparse(v.args[0]) for v in paths.values()) == sorted(["self", param_names(lcaf)[1]])
+    ctx.ob("R3.lca-is-last-common-path-node", TREE, "TreeNode.lowest_common_ancestor", "walk both root paths from the root; keep the last identical node; stop at the first difference",
+           res_ok, "the lowest common ancestor is the last node shared by the two paths to the root and nothing else (for node == self it is the node "
+           "itself; a shortcut through the parent answers the parent)", lcaf.lineno)
+    # binary conversion: a node with one child is dropped and ITS distance is added to the distance that the (converted) child reports
+    from ..exprnorm import summarize_block as _sb, subst as _subst
+    ab = s.func("_as_binary")
+    one = [st for st in ast.walk(ab) if isinstance(st, ast.If) and same_expr(st.test, "len(children) == 1")]
+    ctx.need(len(one) == 1, "single-child branch of _as_binary")
+    benv = _sb([b for b in one[0].body if isinstance(b, ast.Assign)]).env
+    r_else = [r for st in one[0].body if isinstance(st, ast.If) for r in st.orelse if isinstance(r, ast.Return)]
+    r_root = [r for st in one[0].body if isinstance(st, ast.If) and same_expr(st.test, "node.is_root()") for r in st.body if isinstance(r, ast.Return)]
+    ok_b = len(r_else) == 1 and isinstance(r_else[0].value, ast.Tuple) and len(r_else[0].value.elts) == 2 \
+        and same_expr(_subst(r_else[0].value.elts[0], benv), "__item__(_as_binary(node.children[0]), 0)") \
+        and same_expr(_subst(r_else[0].value.elts[1], benv), "node.distance + __item__(_as_binary(node.children[0]), 1)") \
+        and len(r_root) == 1 and isinstance(r_root[0].value, ast.Tuple) and same_expr(_subst(r_root[0].value.elts[0], benv), "__item__(_as_binary(node.children[0]), 0)")
+    ctx.ob("R3.binary-keeps-path-length", TREE, "_as_binary", "one child: (converted child, node.distance + distance reported for the child)", ok_b,
+           "dropping a single-child node must add its branch length to the length the recursive conversion reports for the child "
+           "(which already includes any dropped nodes further down), not to the child's own branch length", one[0].lineno)
+
     # ---------------- R2 construction checks ---------------------------------------
     ti = s.func("Tree.__init__")
     rng = any(isinstance(st, ast.If) and any(isinstance(b, ast.Raise) for b in st.body)
@@ -205,6 +253,14 @@ def run(ctx):
             ok_ms = exhaustive and isinstance(upd[0].test.ops[0], ast.Lt) and spec("not is_clustered_v[i]") in known and spec("not is_clustered_v[j]") in known and inner_ok \
                 and any(isinstance(b, ast.Assign) and same_expr(b.targets[0], "j_min") and same_expr(b.value, "j") for b in upd[0].body) \
                 and any(isinstance(b, ast.Assign) and same_expr(b.targets[0], "i_min") and same_expr(b.value, "i") for b in upd[0].body)
+        # the running minimum starts at the largest representable distance (every real distance is smaller: the input check refuses >= MAX_FLOAT)
+        low_ = ctx.src(rel).low
+        init_min = [st for st in ast.walk(f) if isinstance(st, ast.Assign) and same_expr(st.targets[0], "dist_min") and not any(x is st for u in upd for x in ast.walk(u))]
+        mf = ctx.src(rel).module_assign("MAX_FLOAT")
+        ctx.ob("R4.min-search-start", rel, q, "dist_min = MAX_FLOAT before the search", len(init_min) == 1 and same_expr(init_min[0].value, "MAX_FLOAT")
+               and mf is not None and same_expr(mf, "np.finfo(np.float32).max"),
+               "the minimum search must start above every admissible distance: with a smaller start value (0) no pair is found when all "
+               "remaining distances are >= it and the clustering stops early", f.lineno)
         ctx.ob("R4.min-search", rel, q, "for i: for j in range(i): skip clustered; dist < dist_min", ok_ms and "if i_min == -1 or j_min == -1:" in t,
                "the closest pair is searched over the unclustered lower triangle", f.lineno)
         # every sweep over the nodes (row sums, corrected distances, search, update) visits all of them: the only way out of a
@@ -216,6 +272,15 @@ def run(ctx):
         ctx.ob("R4.input-checks", rel, q, "symmetric, no NaN, finite, non-negative",
                "np.allclose(distances.T, distances)" in t and "np.isnan(distances).any()" in t and "(distances < 0).any()" in t
                and "(distances >= MAX_FLOAT).any()" in t, "the distance matrix must be validated", f.lineno, nontrivial=False)
+    # cluster sizes count leaves: up to the number of input sequences, which needs at least 32 bits
+    ulow = ctx.src(UPGMA).low
+    ct = ulow.ctype("upgma", "cluster_size_v").replace("const ", "")
+    alloc = [st for st in ast.walk(ctx.src(UPGMA).func("upgma")) if isinstance(st, ast.Assign) and same_expr(st.targets[0], "cluster_size_v")]
+    dt = next((dotted(k.value) for st in alloc for k in getattr(st.value, "keywords", []) if k.arg == "dtype"), None)
+    ctx.ob("R4.cluster-size-width", UPGMA, "upgma", f"cluster_size_v: {ct}, allocated as {dt}",
+           ct.split("[")[0] in ("uint32", "int32", "uint64", "int64", "Py_ssize_t", "int", "long") and (dt or "").split(".")[-1] in ("uint32", "int32", "uint64", "int64", "int", "intp"),
+           "a cluster can hold every leaf: its size must not wrap (an 8-bit counter is 0 again at 256 leaves and the average linkage is wrong)",
+           alloc[0].lineno if alloc else 1)
     u = ast.unparse(ctx.src(UPGMA).func("upgma"))
     ctx.ob("R4.upgma-average", UPGMA, "upgma", "size-weighted mean, sizes added after the update",
            "(distances_v[i_min, k] * cluster_size_v[i_min] + distances_v[j_min, k] * cluster_size_v[j_min]) / (cluster_size_v[i_min] + cluster_size_v[j_min])" in u
@@ -237,6 +302,18 @@ def run(ctx):
 
 
 MUTANTS = [
+    Mutant("upgma-cluster-size-uint8", UPGMA, "    cdef uint32[:] cluster_size_v = np.ones(\n        distances.shape[0], dtype=np.uint32\n", "    cdef uint8[:] cluster_size_v = np.ones(\n        distances.shape[0], dtype=np.uint8\n",
+           "R4.cluster-size-width"),
+    Mutant("nj-min-start-zero", NJ, "        dist_min = MAX_FLOAT\n", "        dist_min = 0\n", "R4.min-search-start", qualname="neighbor_joining"),
+    Mutant("newick-only-blanks-removed", TREE, '        newick = "".join(newick.split())\n', '        newick = newick.replace(" ", "")\n', "R1.whitespace-ignored"),
+    Mutant("binary-child-own-distance", TREE, "        child, distance = _as_binary(node.children[0])\n        if node.is_root():\n            # Child is new root -> No distance to parent\n            return child, None\n        else:\n            return child, node.distance + distance\n",
+           "        child, _ = _as_binary(node.children[0])\n        if node.is_root():\n            # Child is new root -> No distance to parent\n            return child, None\n        else:\n            return child, node.distance + node.children[0].distance\n",
+           "R3.binary-keeps-path-length"),
+    Mutant("lca-sibling-shortcut", TREE, "        cdef list self_path = _create_path_to_root(self)\n",
+           "        if node is not None and self._parent is not None and self._parent is node._parent:\n            return self._parent\n        cdef list self_path = _create_path_to_root(self)\n",
+           "R3.lca-is-last-common-path-node"),
+    Mutant("newick-recursion-drops-labels", TREE, "                child, dist = TreeNode.from_newick(\n                    subnewick, labels=labels\n                )\n", "                child, dist = TreeNode.from_newick(subnewick)\n",
+           "R1.labels-forwarded"),
     Mutant("distance-starts-at-parent", TREE, "        current_node = self\n        while current_node is not lca:", "        current_node = self._parent\n        while current_node is not lca:", "R3.distance-is-path-sum"),
     Mutant("nj-search-includes-clustered-column", NJ, "                if is_clustered_v[j]:\n                    continue\n                dist = corr_distances_v[i,j]", "                dist = corr_distances_v[i,j]", "R4.min-search", qualname="neighbor_joining"),
     Mutant("colon-allowed", TREE, "illegal_chars = [\",\",\":\",\";\",\"(\",\")\"]", "illegal_chars = [\",\",\";\",\"(\",\")\"]", "R1.structural-char-refused"),
